@@ -14,12 +14,15 @@ static mi_segment_t vc_segs[VC_K];
 #include "contracts/seg_reclaim.h"
 mi_segment_t* _mi_arena_segment_clear_abandoned_next(mi_arena_field_cursor_t* previous) {
   (void)previous; g_next_n++;
-  if (g_got_n >= VC_K || !vc_nondet_bool("more")) return NULL;
-  mi_segment_t* s = &vc_segs[g_got_n]; g_got_n++;
+  if (g_next_n > VC_K || !vc_nondet_bool("more")) return NULL;
+  /* indexed by the call count, which symbolic execution knows as a constant (the harnesses assign 0 to the counters): a symbolic index
+     would make every store to the segment a byte update at a symbolic offset of the array (8.5 M variables, no answer in 900 s) */
+  mi_segment_t* s = &vc_segs[g_next_n - 1]; g_got_n++;
   __CPROVER_assume(s->used == s->abandoned && s->subproc == g_subproc && s->abandoned_visits < 100);   /* what "abandoned segment of this sub-process" means */
   return s;
 }
-void h_reclaim_all(void) { mi_heap_t* h; mi_segments_tld_t* t; _mi_abandoned_reclaim_all(h, t); VC_REACH(); }
-void h_abandoned_collect(void) { mi_heap_t* h; mi_segments_tld_t* t; _mi_abandoned_collect(h, vc_nondet_bool("force"), t); VC_REACH(); }
-void h_try_reclaim(void) { mi_heap_t* h; mi_segments_tld_t* t; bool* r; mi_segment_t* s = mi_segment_try_reclaim(h, vc_nondet_size("needed"), vc_nondet_size("bs"), r, t); VC_REACH(); }
+static void zero_counters(void) { g_next_n = 0; g_got_n = 0; g_reclaim_n = 0; g_mark_n = 0; g_trypurge_n = 0; }
+void h_reclaim_all(void) { zero_counters(); mi_heap_t* h; mi_segments_tld_t* t; _mi_abandoned_reclaim_all(h, t); VC_REACH(); }
+void h_abandoned_collect(void) { zero_counters(); mi_heap_t* h; mi_segments_tld_t* t; _mi_abandoned_collect(h, vc_nondet_bool("force"), t); VC_REACH(); }
+void h_try_reclaim(void) { zero_counters(); mi_heap_t* h; mi_segments_tld_t* t; bool* r; mi_segment_t* s = mi_segment_try_reclaim(h, vc_nondet_size("needed"), vc_nondet_size("bs"), r, t); VC_REACH(); }
 void h_attempt_reclaim(void) { g_clear_ret = vc_nondet_bool("g_clear_ret"); mi_heap_t* h; mi_segment_t* s; bool r = _mi_segment_attempt_reclaim(h, s); VC_REACH(); }
